@@ -292,6 +292,14 @@ def scan_k2(chk, rule, shorts, sym):
                 if rv:
                     chk.ok(rule, mod, node, construct, "reviewed exception: " + rv)
                     continue
+                known_sets = [k_ for k_ in keys if k_[0] != "SETVAR" or facts.setvar_meaning(k_[1])]
+                from .source import lost_tokens as _lost
+
+                if not known_sets and not _lost(mod, node):
+                    # nothing is known about where the key comes from (a form the key-set inference does not model) and
+                    # the function was restructured as a whole (see report.Check._shape_undecided): no evidence either way
+                    chk.undecided.append(f"{rule}: key of `{norm(node)[:70]}` in `{q}` ranges over a set the inference does not model")
+                    continue
                 chk.fail(
                     rule, mod, node, construct,
                     f"unguarded lookup `{norm(node)[:80]}` in `{q}`: the key is only known to lie in "
